@@ -58,7 +58,7 @@ func (cs *c01Case) UnmarshalJSON(b []byte) error {
 func init() {
 	engine.Register(&engine.Check{
 		ID: "C01", Level: "exploration",
-		Rule: "every shape of the universe U (7 types x layouts XY,XYZ,XYM,XYZM,Layout(5),Layout(7) + NoLayout empties; part sizes 0..2, <=3 parts, <=3 (quick 2) polygons of <=2 rings) built by SetCoords, by New*Flat from the model's own flattening, by Push and (points) by NewPointFlatMaybeEmpty, plus Clone; special-float sweep (9 values x every ordinate position); larger structures (5..65 polygons/parts, lines of 200..2600 coordinates) in four layouts; every single-coordinate length mismatch (stride-1, stride+1, 0, nil) at every position. distinct_nontrivial = distinct (model, mode, mismatch) cases with at least one coordinate or one part Also: Clone followed by a Push on both values with parts of different sizes (both must stay well formed and read back their own parts), binary multi-geometries and collections whose member records announce another dimensionality than the outer record (every pair of XY/XYZ/XYM/XYZM, both byte orders, WKB / WKB-NaN / EWKB: a returned geometry must be well formed), and the IGC reader's error path (every single-column substitution and truncation of a B record under three I-record states: the track returned together with the error must be well formed). Round 9: every second all-present MultiPoint is built with the ends option holding no ends. Round 10: the length-mismatch sweep for layout-less geometries of all seven types.",
+		Rule: "every shape of the universe U (7 types x layouts XY,XYZ,XYM,XYZM,Layout(5),Layout(7) + NoLayout empties; part sizes 0..2, <=3 parts, <=3 (quick 2) polygons of <=2 rings) built by SetCoords, by New*Flat from the model's own flattening, by Push and (points) by NewPointFlatMaybeEmpty, plus Clone; special-float sweep (9 values x every ordinate position); larger structures (5..65 polygons/parts, lines of 200..2600 coordinates) in four layouts; every single-coordinate length mismatch (stride-1, stride+1, 0, nil) at every position. distinct_nontrivial = distinct (model, mode, mismatch) cases with at least one coordinate or one part Also: Clone followed by a Push on both values with parts of different sizes (both must stay well formed and read back their own parts), binary multi-geometries and collections whose member records announce another dimensionality than the outer record (every pair of XY/XYZ/XYM/XYZM, both byte orders, WKB / WKB-NaN / EWKB: a returned geometry must be well formed), and the IGC reader's error path (every single-column substitution and truncation of a B record under three I-record states: the track returned together with the error must be well formed). Round 9: every second all-present MultiPoint is built with the ends option holding no ends. Round 10: the length-mismatch sweep for layout-less geometries of all seven types. Round 13: every ordered pair (source shape, target shape) of one type and layout as two geometries made by New*Flat from the same caller slices, SetCoords(target) on one: it reads back the target and the sibling stays well formed.",
 		Run:  c01Run,
 		Replay: func(c *engine.Ctx, kind string, raw json.RawMessage) {
 			cs := decodeCase[c01Case](raw)
@@ -73,6 +73,10 @@ func init() {
 			}
 			if kind == "decoded" {
 				c01Decoded(c, cs)
+				return
+			}
+			if kind == "sibling" {
+				c01Sibling(c, cs, c01SiblingTargets(cs.G))
 				return
 			}
 			c01Exec(c, cs)
@@ -185,8 +189,34 @@ func c01MixedMembers(c *engine.Ctx) {
 	})
 }
 
+// c01SiblingTargets: every shape of the universe with the type and layout of g (deterministic order).
+func c01SiblingTargets(g *ref.G) []*ref.G {
+	var out []*ref.G
+	ref.ForEachBase(g.Layout, 2, func(h *ref.G) {
+		if h.Kind == g.Kind {
+			out = append(out, h)
+		}
+	})
+	return out
+}
+
 func c01Run(c *engine.Ctx) {
 	c01IGC(c)
+	// every ordered pair (source shape, target shape) of one type and layout, see c01Sibling
+	for _, l := range ref.Layouts4 {
+		var shapes []*ref.G
+		ref.ForEachBase(l, 2, func(g *ref.G) {
+			if g.Kind != ref.Point {
+				shapes = append(shapes, g)
+			}
+		})
+		c.Parallel(len(shapes), func(i int) {
+			targets := c01SiblingTargets(shapes[i])
+			for k := range targets {
+				c01Sibling(c, c01Case{G: shapes[i], Mode: "sibling", Pos: k}, targets)
+			}
+		})
+	}
 	c01MixedMembers(c)
 	maxPolys := 2
 	if c.Thorough() {
@@ -773,6 +803,131 @@ func c01Exec(c *engine.Ctx, cs c01Case) {
 		c.DistinctStr(mustJSON(cs))
 	}
 	c.Sample(cs.Mode, 2, cs)
+}
+
+// c01Sibling: two geometries made by New*Flat from the SAME caller-owned slices (the idiom for
+// viewing one geometry as another type; the slices have spare capacity). SetCoords on one of them
+// gives the receiver what was set, and the sibling stays a well-formed geometry (its ends aligned,
+// non-decreasing, finishing at the end of its coordinates; Coords() does not panic). cs.G is the source shape, cs.Pos the index of
+// the target shape among the shapes of the same type and layout.
+func c01Sibling(c *engine.Ctx, cs c01Case, targets []*ref.G) {
+	g := cs.G
+	h := targets[cs.Pos]
+	c.Count("evaluations", 1)
+	flat, ends, endss := g.Flat()
+	cf := append(make([]float64, 0, len(flat)+3*g.Layout.Stride()+5), flat...)
+	ce := append(make([]int, 0, len(ends)+5), ends...)
+	cee := make([][]int, 0, len(endss)+3)
+	for _, r := range endss {
+		cee = append(cee, append(make([]int, 0, len(r)+3), r...))
+	}
+	mk := func() geom.T {
+		switch g.Kind {
+		case ref.LineString:
+			return geom.NewLineStringFlat(g.Layout, cf)
+		case ref.LinearRing:
+			return geom.NewLinearRingFlat(g.Layout, cf)
+		case ref.Polygon:
+			return geom.NewPolygonFlat(g.Layout, cf, ce)
+		case ref.MultiLineString:
+			return geom.NewMultiLineStringFlat(g.Layout, cf, ce)
+		case ref.MultiPoint:
+			return geom.NewMultiPointFlat(g.Layout, cf, geom.NewMultiPointFlatOptionWithEnds(ce))
+		case ref.MultiPolygon:
+			return geom.NewMultiPolygonFlat(g.Layout, cf, cee)
+		}
+		return nil
+	}
+	snap := func() string {
+		var sb strings.Builder
+		for _, v := range cf[:cap(cf)] {
+			fmt.Fprintf(&sb, "%x,", math.Float64bits(v))
+		}
+		fmt.Fprint(&sb, "|", ce[:cap(ce)], "|")
+		for _, r := range cee[:cap(cee)] {
+			fmt.Fprint(&sb, r[:cap(r)], len(r), ";")
+		}
+		return sb.String()
+	}
+	fail := func(what, desc string) {
+		c.Violate(fmt.Sprintf("%s/%s/sibling/%s", g.Kind, g.Layout, what), clipStr(fmt.Sprintf("%s; both made by New*Flat from the same slices holding %s, then SetCoords(%s) on the first", desc, g, h), 1500), "sibling", cs)
+	}
+	var a, b geom.T
+	var before string
+	var err error
+	if p, _ := engine.Guard(func() {
+		a, b = mk(), mk()
+		if a == nil {
+			return
+		}
+		before = snap()
+		n1 := func(x []ref.C) []geom.Coord {
+			out := make([]geom.Coord, len(x))
+			for i, v := range x {
+				if v != nil {
+					out[i] = v.Floats()
+				}
+			}
+			return out
+		}
+		n2 := func(x [][]ref.C) [][]geom.Coord {
+			out := make([][]geom.Coord, len(x))
+			for i, v := range x {
+				out[i] = n1(v)
+			}
+			return out
+		}
+		switch t := a.(type) {
+		case *geom.LineString:
+			_, err = t.SetCoords(n1(h.C1))
+		case *geom.LinearRing:
+			_, err = t.SetCoords(n1(h.C1))
+		case *geom.MultiPoint:
+			_, err = t.SetCoords(n1(h.C1))
+		case *geom.Polygon:
+			_, err = t.SetCoords(n2(h.C2))
+		case *geom.MultiLineString:
+			_, err = t.SetCoords(n2(h.C2))
+		case *geom.MultiPolygon:
+			arg := make([][][]geom.Coord, len(h.C3))
+			for i, v := range h.C3 {
+				arg[i] = n2(v)
+			}
+			_, err = t.SetCoords(arg)
+		}
+	}); p != nil {
+		fail("panic", fmt.Sprintf("panic %v", p))
+		return
+	}
+	if a == nil {
+		return
+	}
+	if err != nil {
+		fail("error", "SetCoords: "+err.Error())
+		return
+	}
+	// (whether SetCoords may reuse storage that the constructor was given is not stated by the
+	// property: a change of the caller's slices is counted, not reported; what IS stated is that
+	// a geometry obtained from a constructor is well formed - the sibling below)
+	if after := snap(); after != before {
+		c.Count("sibling_storage_reused", 1)
+	}
+	if d := observeEq(a, h, ref.EqualOpt{}); d != "" {
+		fail("receiver", "the receiver does not read back what was set: "+d)
+		return
+	}
+	var werr error
+	var d string
+	if p, _ := engine.Guard(func() {
+		werr = ref.WellFormed(b)
+		if werr == nil {
+			_, werr = ref.Observe(b)
+		}
+	}); p != nil || werr != nil {
+		fail("sibling-ill-formed", fmt.Sprintf("the other geometry is no longer well formed: panic=%v %v %s", p, werr, d))
+		return
+	}
+	c.Count("sibling_cases", 1)
 }
 
 // c01SelfAlias: a second SetCoords on the same object whose argument is built from views of the
